@@ -56,7 +56,10 @@ func (r *Reader) readMdat(b *box) (err error) {
 	}
 	header, err := readExifHeader(&inner, ifds.IFD0, imagetype.ImageHEIF)
 	if err != nil {
-		panic(err)
+		if logLevelError() {
+			logError().Object("box", inner).Err(err).Send()
+		}
+		return err
 	}
 
 	if r.ExifReader != nil {
